@@ -82,7 +82,11 @@ func genC20Value(t *rapid.T, key string, label string) *sq.E {
 			return sq.Null()
 		}
 	}
-	switch rapid.IntRange(0, 3).Draw(t, label+".form") {
+	switch rapid.IntRange(0, 4).Draw(t, label+".form") {
+	case 4:
+		// a structured value (object with one field or several, empty / one-element / longer array) taken from a
+		// column: a register returns exactly what was stored
+		return sq.Col("o")
 	case 0:
 		return sq.Str(rapid.SampledFrom([]string{"", "x", "it's", "é", "k1"}).Draw(t, label+".c"))
 	case 1:
@@ -115,6 +119,7 @@ func genC20(t *rapid.T) any {
 			q.Rows = append(q.Rows, map[string]any{
 				"a": rapid.SampledFrom([]float64{1, 2, 3, 4, 10, -5}).Draw(t, fmt.Sprintf("%s.r%d.a", ql, r)),
 				"s": rapid.SampledFrom([]string{"x", "y", "", "zz"}).Draw(t, fmt.Sprintf("%s.r%d.s", ql, r)),
+				"o": rapid.SampledFrom([]any{map[string]any{"x": 1.0}, map[string]any{"x": 1.0, "y": "b"}, []any{}, []any{map[string]any{"x": 2.0}}, []any{1.0, 2.0}, map[string]any{"n": nil}, []any{"only"}}).Draw(t, fmt.Sprintf("%s.r%d.o", ql, r)),
 			})
 			if c.Big {
 				q.Rows[r].(map[string]any)["b"] = rapid.SampledFrom([]float64{0, 1, 2, 3, 5, -1}).Draw(t, fmt.Sprintf("%s.r%d.b", ql, r))
